@@ -20,9 +20,20 @@ type wValid struct {
 type wCipher struct {
 	// ciphertext = valid answer for (Len, "count", "stream:p") with bit Flip flipped (-1: none),
 	// or, when Garbage != "", Pattern(Garbage, Len) taken as ciphertext directly.
+	// With Plain, the bit is flipped in the plaintext SHA1(data)+data+pad and the result is encrypted by the
+	// reference IGE (a well-formed answer whose only defect is that bit: wrong hash, wrong data, or - in the
+	// padding - no defect at all).
 	Len     int    `json:"len"`
 	Flip    int    `json:"flip_bit"`
 	Garbage string `json:"garbage,omitempty"`
+	Plain   bool   `json:"flip_in_plaintext,omitempty"`
+}
+
+func short(b []byte) string {
+	if len(b) > 48 {
+		return fmt.Sprintf("%x...(%d bytes)", b[:48], len(b))
+	}
+	return fmt.Sprintf("%x", b)
 }
 
 var (
@@ -56,10 +67,10 @@ func judge(ct []byte) kit.Result {
 	}
 	plain := refcrypto.IGEDecrypt(key, iv, ct)
 	if len(plain) < 20 {
-		return kit.Bad("success-unauthenticated", "success on %d-byte ciphertext, result %x", len(ct), dst)
+		return kit.Bad("success-unauthenticated", "success on %d-byte ciphertext, result %s", len(ct), short(dst))
 	}
 	if !bytes.Equal(refcrypto.SHA1(dst), plain[:20]) || !bytes.HasPrefix(plain[20:], dst) || len(plain)-20-len(dst) > 15 {
-		return kit.Bad("success-unauthenticated", "success (dst=%x, nil=%v) but SHA1(dst) != decrypted hash prefix %x (ciphertext %d bytes)", dst, dst == nil, plain[:20], len(ct))
+		return kit.Bad("success-unauthenticated", "success (dst=%s, nil=%v) but SHA1(dst) != decrypted hash prefix %x (ciphertext %d bytes)", short(dst), dst == nil, plain[:20], len(ct))
 	}
 	return kit.OKo("data")
 }
@@ -99,7 +110,11 @@ func main() {
 				if err != nil {
 					return kit.Bad("encrypt-error", "%v", err)
 				}
-				if w.Flip >= 0 {
+				if w.Flip >= 0 && w.Plain {
+					plain := refcrypto.IGEDecrypt(key, iv, ct)
+					plain[w.Flip/8] ^= 1 << (w.Flip % 8)
+					ct = refcrypto.IGEEncrypt(key, iv, plain)
+				} else if w.Flip >= 0 {
 					ct[w.Flip/8] ^= 1 << (w.Flip % 8)
 				}
 			}
@@ -110,7 +125,11 @@ func main() {
 		}
 		c.Rule("valid answers: data length 0..64 (thorough 0..256) x data patterns {count,zero,ff} x padding streams {zero,ff,stream}; " +
 			"ciphertexts: every single-bit flip of the valid answer for each data length 0..32 (thorough 0..64), and garbage ciphertexts of every " +
-			"length 0..128 x patterns {zero,ff,count,stream a,b}. distinct = distinct witnesses. Oracle: success implies SHA1(result) equals the " +
+			"length 0..128 x patterns {zero,ff,count,stream a,b}. Length dimension: for every block count B in {2^k-1,2^k,2^k+1 : k=3..13 " +
+			"(thorough k=3..16, and 2^20 = 16 MiB)} (64 KiB = 2^12 blocks and 128 KiB are inside): valid answers filling B blocks with padding 0,1,15 " +
+			"x data patterns x padding streams; the valid answer with one bit flipped at each structural position (first bit, last hash bit, " +
+			"first data bit, middle, first/last bit of the last block) in the ciphertext and in the plaintext (re-encrypted by the reference); " +
+			"garbage of 16B bytes and of the unaligned lengths 16B-1, 16B+1, 16B+8 x 5 patterns. distinct = distinct witnesses. Oracle: success implies SHA1(result) equals the " +
 			"first 20 bytes of an independent AES-IGE decryption and result is the data that follows.")
 		c.Assume("reference AES-IGE written from the spec on crypto/aes; key/iv fixed (the function does not branch on them)")
 		maxLen, flipLen := 64, 32
@@ -135,6 +154,42 @@ func main() {
 				tampered.Eval(wCipher{Len: n, Flip: -1, Garbage: g})
 			}
 		}
-		_ = fmt.Sprint
+		// length dimension: block counts around every power of two
+		maxK := 13
+		if c.Thorough() {
+			maxK = 16
+		}
+		var blocks []int
+		for k := 3; k <= maxK; k++ {
+			blocks = append(blocks, 1<<k-1, 1<<k, 1<<k+1)
+		}
+		if c.Thorough() {
+			blocks = append(blocks, 1<<20-1, 1<<20, 1<<20+1)
+		}
+		c.Set("max_ciphertext_bytes", blocks[len(blocks)-1]*16)
+		for _, b := range blocks {
+			if c.Expired() {
+				c.NotExhaustive("length dimension stopped before %d blocks", b)
+				break
+			}
+			for _, pad := range []int{0, 1, 15} {
+				n := b*16 - 20 - pad
+				for _, d := range []string{"count", "zero", "ff"} {
+					for _, p := range []string{"zero", "ff", "stream"} {
+						valid.Eval(wValid{n, d, p})
+					}
+				}
+				total := b * 16 * 8
+				for _, pos := range []int{0, 159, 160, total / 2, total - 128, total - 1} {
+					tampered.Eval(wCipher{Len: n, Flip: pos})
+					tampered.Eval(wCipher{Len: n, Flip: pos, Plain: true})
+				}
+			}
+			for _, n := range []int{b * 16, b*16 - 1, b*16 + 1, b*16 + 8} {
+				for _, g := range []string{"zero", "ff", "count", "stream:a", "stream:b"} {
+					tampered.Eval(wCipher{Len: n, Flip: -1, Garbage: g})
+				}
+			}
+		}
 	})
 }
